@@ -143,8 +143,9 @@ def run_case(case, tier):
             return {"violations": [{"mech": "manager_died", "detail": (rig.crash or "hung")[-800:]}], "counters": {}}
         rx = sc.received()
         streams = {L: r for L, r in rx.items()}
+        logs = {fr[0] for rec in sc.rounds for fr in rec["frames"] if fr[1]["kind"] in ("hello_v2", "hello_v1") and fr[1].get("logger") and fr[2] == "ack"}
         res = judge_streams(streams, {L: (sc.cl[L].closed_by_us, r["eof"]) for L, r in rx.items()},
-                            lambda f: sc.pubs.get(f.pid))
+                            lambda f: sc.pubs.get(f.pid), loggers=logs)
         res["sig"] = sig_of(case["steps"])
         if sc.problems:
             res["inconclusive"] = "; ".join(sc.problems[:3])
@@ -157,7 +158,7 @@ def run_case(case, tier):
         rig.close()
 
 
-def judge_streams(streams, closed, pub_of):
+def judge_streams(streams, closed, pub_of, loggers=()):
     """streams: label -> {frames, leftover, eof, parse_error}"""
     res = {"violations": [], "counters": {}, "sets": {}, "nontrivial": False}
     C = res["counters"]
@@ -196,7 +197,9 @@ def judge_streams(streams, closed, pub_of):
                 V.append({"mech": "sender_order", "detail": f"{L}: message {p['id']} of sender {by} arrived after {last[by]}"})
             last[by] = p["id"]
         # identities for the cross-receiver graph
-        ids = [f.key() for f in frames]
+        # acknowledgements are unicast to their requester; only logger modules receive copies of other modules'
+        # acknowledgements, so only among loggers is "the same acknowledgement" a message shared by two receivers
+        ids = [f.key() for f in frames if not (f.msg_type == W.MT_ACK and f.src_mod == 0 and pub_of(f) is None and L not in loggers)]
         cnt = {}
         for k in ids:
             cnt[k] = cnt.get(k, 0) + 1
@@ -277,8 +280,9 @@ def run_free(case):
             allc.append(wc)
             return wc
 
+        free_logger = rng.random() < 0.5
         for i in range(case["nsub"]):
-            s = connect(f"s{i}", 20 + i, logger=int(i == 0 and rng.random() < 0.5))
+            s = connect(f"s{i}", 20 + i, logger=int(i == 0 and free_logger))
             if i % 2 == 0:
                 s.send_frame(W.MT_SUBSCRIBE, W.p_sub(ALL))
             else:
@@ -337,7 +341,7 @@ def run_free(case):
             except W.ParseError as e:
                 streams[wc.label] = {"frames": [], "leftover": b"", "eof": wc.eof, "parse_error": str(e)}
         res = judge_streams(streams, {wc.label: (None, wc.eof) for wc in allc},
-                            lambda f: registry.get(f.pid))
+                            lambda f: registry.get(f.pid), loggers={"s0"} if free_logger else ())
         res["sig"] = sig_of(case)
         res["counters"]["free_running_cases"] = 1
         res["sets"]["free_orders"] = [hash(tuple(rig.orders_seen[:200])) & 0xFFFFFF]
